@@ -30,6 +30,10 @@ pub struct NetLogInner {
     pub disconnects: Vec<(u64, PeerIndex, String)>,
     pub total_sent: u64,
     pub peers: HashMap<PeerIndex, Peer>,
+    /// fault injection: sessions that are closing - every send to them fails (as tentacle reports for a session whose channel is
+    /// gone) until the scheduler delivers the `disconnected` callback
+    pub failing: std::collections::HashSet<PeerIndex>,
+    pub failed_sends: u64,
 }
 
 #[derive(Clone, Default)]
@@ -52,7 +56,15 @@ impl NetLog {
         self.0.lock().unwrap().peers.insert(idx, peer);
     }
     pub fn remove_peer(&self, idx: PeerIndex) {
-        self.0.lock().unwrap().peers.remove(&idx);
+        let mut g = self.0.lock().unwrap();
+        g.peers.remove(&idx);
+        g.failing.remove(&idx);
+    }
+    pub fn set_failing(&self, idx: PeerIndex) {
+        self.0.lock().unwrap().failing.insert(idx);
+    }
+    pub fn failed_sends(&self) -> u64 {
+        self.0.lock().unwrap().failed_sends
     }
 }
 
@@ -65,12 +77,17 @@ impl RecNet {
     pub fn new(proto: SupportProtocols, log: NetLog) -> Arc<dyn CKBProtocolContext + Sync> {
         Arc::new(RecNet { proto, log })
     }
-    fn push(&self, p: ProtocolId, i: PeerIndex, d: P2pBytes) {
+    fn push(&self, p: ProtocolId, i: PeerIndex, d: P2pBytes) -> Result<(), Error> {
         let mut g = self.log.0.lock().unwrap();
+        if g.failing.contains(&i) {
+            g.failed_sends += 1;
+            return Err(Error::Io(std::io::Error::new(std::io::ErrorKind::BrokenPipe, "session is closing")));
+        }
         g.seq += 1;
         g.total_sent += 1;
         let seq = g.seq;
         g.outbox.push(Sent { seq, at: ckb_systemtime::unix_time_as_millis(), proto: p, peer: i, data: d });
+        Ok(())
     }
 }
 
@@ -126,12 +143,10 @@ impl CKBProtocolContext for RecNet {
         Ok(())
     }
     fn send_message(&self, p: ProtocolId, i: PeerIndex, d: P2pBytes) -> Result<(), Error> {
-        self.push(p, i, d);
-        Ok(())
+        self.push(p, i, d)
     }
     fn send_message_to(&self, i: PeerIndex, d: P2pBytes) -> Result<(), Error> {
-        self.push(self.protocol_id(), i, d);
-        Ok(())
+        self.push(self.protocol_id(), i, d)
     }
     fn filter_broadcast(&self, _t: TargetSession, _d: P2pBytes) -> Result<(), Error> {
         Ok(())
